@@ -199,8 +199,7 @@ def build():
                                 "map_indices_parent2child",
                                 "map_indices_root2child")}
     hfns = shadow(HF, np=npx, Filter=Filter, hashobj=hashobj, **maps)
-    evns = shadow(HE, np=npx,
-                  map_indices_child2parent=maps["map_indices_child2parent"])
+    evns = shadow(HE, np=npx, **maps)
     evns["ChildScalar"].__symarray__ = lambda self: self.__array__()
     corens = shadow(CORE, np=npx, Filter=Filter)
     RTDCBase = corens["RTDCBase"]
